@@ -127,6 +127,9 @@ func tfSchema() *schema.BodySchema {
 			"cfg": {
 				Labels: []*schema.LabelSchema{{Name: "kind", IsDepKey: true}},
 				Body: &schema.BodySchema{
+					// the block also stands for a known value (like the outputs of a module): its nested
+					// declarations are derived from the value with the library's own helper
+					TargetableAs: schema.Targetables{cfgTargetable()},
 					AnyAttribute: &schema.AttributeSchema{IsOptional: true, Constraint: schema.AnyExpression{OfType: cty.String}},
 					Blocks: map[string]*schema.BlockSchema{
 						"sub": {Body: &schema.BodySchema{Attributes: map[string]*schema.AttributeSchema{
@@ -152,6 +155,19 @@ func tfSchema() *schema.BodySchema {
 			Constraints:   schema.Constraints{ScopeId: "variable", Type: cty.DynamicPseudoType},
 		}},
 	}
+}
+
+var cfgValue = cty.ObjectVal(map[string]cty.Value{
+	"cidrs": cty.ListVal([]cty.Value{cty.StringVal("a"), cty.StringVal("b"), cty.StringVal("c")}),
+	"tags":  cty.MapVal(map[string]cty.Value{"env": cty.StringVal("x"), "team": cty.StringVal("y")}),
+	"peer": cty.ObjectVal(map[string]cty.Value{"id": cty.StringVal("p"), "zone": cty.StringVal("z"),
+		"ports": cty.ListVal([]cty.Value{cty.NumberIntVal(1), cty.NumberIntVal(2)})}),
+})
+
+func cfgTargetable() *schema.Targetable {
+	addr := lang.Address{lang.RootStep{Name: "cfgdata"}, lang.AttrStep{Name: "net"}, lang.AttrStep{Name: "out"}}
+	return &schema.Targetable{Address: addr, ScopeId: "cfg", AsType: cfgValue.Type(),
+		NestedTargetables: schema.NestedTargetablesForValue(addr, "cfg", cfgValue)}
 }
 
 type TfDecl struct {
